@@ -1179,6 +1179,14 @@ VARIANTS += [
          edits=[dict(file='ipa-core/src/net/server/handlers/query/mod.rs', find='    fn call(&mut self, req: Request<B>) -> Self::Future {\n        match req.extensions().get::<ClientIdentity<F::Identity>>() {\n            Some(ClientIdentity(_)) => self.inner.call(req).left_future(),\n            None => ready(Ok((\n                StatusCode::UNAUTHORIZED,\n                "This API requires the client helper to authenticate",\n            )\n                .into_response()))\n            .right_future(),\n        }\n    }\n}\n\n#[cfg(all(test, unit_test))]\npub mod test_helpers {\n    use std::{any::Any, sync::Arc};\n', replace='    fn call(&mut self, req: Request<B>) -> Self::Future {\n        match req.extensions().get::<ClientIdentity<F::Identity>>() {\n            Some(ClientIdentity(_)) => self.inner.call(req).left_future(),\n            None => ready(Ok(unauthorized_response())).right_future(),\n        }\n    }\n}\n\n/// The response given to callers that did not present a verified peer identity.\nfn unauthorized_response() -> Response {\n    (\n        StatusCode::UNAUTHORIZED,\n        "This API requires the client helper to authenticate",\n    )\n        .into_response()\n}\n\n#[cfg(all(test, unit_test))]\npub mod test_helpers {\n    use std::{any::Any, sync::Arc};\n')]),
     dict(prop="C20", name="b8-acceptor-closure-hoisted", benign=True,
          edits=[dict(file='ipa-core/src/net/server/mod.rs', find='                }),\n        );\n        let handle = Handle::new();\n\n        let task_handle = match (self.config.disable_https, listener) {\n            (true, Some(listener)) => {\n', replace='                }),\n        );\n        let handle = Handle::new();\n        // Address to bind when the caller did not supply a listening socket.\n        let bind_addr = || SocketAddr::new(BIND_ADDRESS.into(), self.config.port.unwrap_or(0));\n        // TLS only: wraps the acceptor so that the peer identity comes from the client certificate.\n        let recognize_client_cert = |tls_acceptor: RustlsAcceptor| {\n            ClientCertRecognizingAcceptor::new(tls_acceptor, self.network_config.clone())\n        };\n\n        let task_handle = match (self.config.disable_https, listener) {\n            (true, Some(listener)) => {\n'), dict(file='ipa-core/src/net/server/mod.rs', find='                .await\n            }\n            (true, None) => {\n                let addr = SocketAddr::new(BIND_ADDRESS.into(), self.config.port.unwrap_or(0));\n                let svc = svc\n                    .layer(layer_fn(SetClientIdentityFromHeader::<_, F>::new))\n                    .into_make_service();\n', replace='                .await\n            }\n            (true, None) => {\n                let addr = bind_addr();\n                let svc = svc\n                    .layer(layer_fn(SetClientIdentityFromHeader::<_, F>::new))\n                    .into_make_service();\n'), dict(file='ipa-core/src/net/server/mod.rs', find='                    .expect("invalid TLS configuration");\n                spawn_server(\n                    runtime,\n                    axum_server::from_tcp_rustls(listener, rustls_config).map(|a| {\n                        ClientCertRecognizingAcceptor::new(a, self.network_config.clone())\n                    }),\n                    handle.clone(),\n                    svc.into_make_service(),\n                )\n                .await\n            }\n            (false, None) => {\n                let addr = SocketAddr::new(BIND_ADDRESS.into(), self.config.port.unwrap_or(0));\n                let rustls_config = rustls_config(&self.config, self.network_config.vec_peers())\n                    .await\n                    .expect("invalid TLS configuration");\n                spawn_server(\n                    runtime,\n                    axum_server::bind_rustls(addr, rustls_config).map(|a| {\n                        ClientCertRecognizingAcceptor::new(a, self.network_config.clone())\n                    }),\n                    handle.clone(),\n                    svc.into_make_service(),\n                )\n', replace='                    .expect("invalid TLS configuration");\n                spawn_server(\n                    runtime,\n                    axum_server::from_tcp_rustls(listener, rustls_config)\n                        .map(recognize_client_cert),\n                    handle.clone(),\n                    svc.into_make_service(),\n                )\n                .await\n            }\n            (false, None) => {\n                let addr = bind_addr();\n                let rustls_config = rustls_config(&self.config, self.network_config.vec_peers())\n                    .await\n                    .expect("invalid TLS configuration");\n                spawn_server(\n                    runtime,\n                    axum_server::bind_rustls(addr, rustls_config).map(recognize_client_cert),\n                    handle.clone(),\n                    svc.into_make_service(),\n                )\n')]),
+    dict(prop="C08", name="b8-padding-any-early-return", benign=True,
+         edits=[dict(file='ipa-core/src/ff/boolean_array.rs', find='                let raw_val = <$store>::new(assert_copy(*buf).into());\n\n                // make sure trailing bits (padding) are zeroes.\n                if raw_val[$bits..].not_any() {\n                    Ok(Self(raw_val))\n                } else {\n                    Err(NonZeroPadding(\n                        GenericArray::from_array(raw_val.into_inner()),\n                        $bits,\n                    ))\n                }\n            }\n        }\n\n', replace='                let raw_val = <$store>::new(assert_copy(*buf).into());\n\n                // make sure trailing bits (padding) are zeroes.\n                let padding = &raw_val[$bits..];\n                if padding.any() {\n                    return Err(NonZeroPadding(\n                        GenericArray::from_array(raw_val.into_inner()),\n                        $bits,\n                    ));\n                }\n                Ok(Self(raw_val))\n            }\n        }\n\n')]),
+    dict(prop="C03", name="b8-sum-of-uv-in-helper", benign=True,
+         edits=[dict(file='ipa-core/src/protocol/context/dzkp_validator.rs', find='            .flat_map(MultiplicationInputsBatch::get_field_values_from_left_prover)\n    }\n\n    /// ## Panics\n    /// If `usize` to `u128` conversion fails.\n    pub(super) async fn validate<B: ShardBinding>(\n', replace='            .flat_map(MultiplicationInputsBatch::get_field_values_from_left_prover)\n    }\n\n    /// Computes the value that the sum of all `u * v` products in this batch must have\n    /// if every multiplication was carried out honestly, i.e. `-m/2` for `m` multiplies.\n    ///\n    /// ## Panics\n    /// If `usize` to `u128` conversion fails.\n    fn expected_sum_of_uv(&self) -> Fp61BitPrime {\n        // get number of multiplications\n        let m = self.get_number_of_multiplications();\n        tracing::info!("validating {m} multiplications");\n        debug_assert_eq!(\n            m,\n            self.get_field_values_prover().count(),\n            "Number of multiplications is counted incorrectly"\n        );\n        Fp61BitPrime::truncate_from(u128::try_from(m).unwrap()) * Fp61BitPrime::MINUS_ONE_HALF\n    }\n\n    /// ## Panics\n    /// If `usize` to `u128` conversion fails.\n    pub(super) async fn validate<B: ShardBinding>(\n'), dict(file='ipa-core/src/protocol/context/dzkp_validator.rs', find='            .await;\n\n        let (sum_of_uv, p_r_right_prover, q_r_left_prover) = {\n            // get number of multiplications\n            let m = self.get_number_of_multiplications();\n            tracing::info!("validating {m} multiplications");\n            debug_assert_eq!(\n                m,\n                self.get_field_values_prover().count(),\n                "Number of multiplications is counted incorrectly"\n            );\n            let sum_of_uv = Fp61BitPrime::truncate_from(u128::try_from(m).unwrap())\n                * Fp61BitPrime::MINUS_ONE_HALF;\n\n            let (p_r_right_prover, q_r_left_prover) = chunk_batch.compute_p_and_q_r(\n                &challenges_for_left_prover,\n', replace='            .await;\n\n        let (sum_of_uv, p_r_right_prover, q_r_left_prover) = {\n            let sum_of_uv = self.expected_sum_of_uv();\n\n            let (p_r_right_prover, q_r_left_prover) = chunk_batch.compute_p_and_q_r(\n                &challenges_for_left_prover,\n')]),
+    dict(prop="C02", name="b8-reveal-then-ok-or", benign=True,
+         edits=[dict(file='ipa-core/src/protocol/basics/reveal.rs', find="    try_join(send_left_fut, send_right_fut).await?;\n\n    if Some(ctx.role()) == excluded {\n        Ok(None)\n    } else {\n        let (share_from_left, share_from_right) = try_join(\n            left_receiver.receive(record_id),\n            right_receiver.receive(record_id),\n        )\n        .await?;\n\n        if share_from_left == share_from_right {\n            Ok(Some(share_from_left + left + right))\n        } else {\n            Err(Error::MaliciousRevealFailed)\n        }\n    }\n}\n\nimpl<'a, V, const N: usize, CtxF> Reveal<UpgradedMaliciousContext<'a, CtxF>> for Replicated<V, N>\n", replace="    try_join(send_left_fut, send_right_fut).await?;\n\n    if Some(ctx.role()) == excluded {\n        return Ok(None);\n    }\n\n    let (share_from_left, share_from_right) = try_join(\n        left_receiver.receive(record_id),\n        right_receiver.receive(record_id),\n    )\n    .await?;\n\n    // Both peers hold a copy of the one share this helper is missing: the copies must agree.\n    (share_from_left == share_from_right)\n        .then(|| Some(share_from_left + left + right))\n        .ok_or(Error::MaliciousRevealFailed)\n}\n\nimpl<'a, V, const N: usize, CtxF> Reveal<UpgradedMaliciousContext<'a, CtxF>> for Replicated<V, N>\n")]),
+    dict(prop="C02", name="reveal-then-compares-copy-with-itself", expect=['GUARD-reveal', 'malicious_reveal'],
+         edits=[dict(file='ipa-core/src/protocol/basics/reveal.rs', find="    try_join(send_left_fut, send_right_fut).await?;\n\n    if Some(ctx.role()) == excluded {\n        Ok(None)\n    } else {\n        let (share_from_left, share_from_right) = try_join(\n            left_receiver.receive(record_id),\n            right_receiver.receive(record_id),\n        )\n        .await?;\n\n        if share_from_left == share_from_right {\n            Ok(Some(share_from_left + left + right))\n        } else {\n            Err(Error::MaliciousRevealFailed)\n        }\n    }\n}\n\nimpl<'a, V, const N: usize, CtxF> Reveal<UpgradedMaliciousContext<'a, CtxF>> for Replicated<V, N>\n", replace="    try_join(send_left_fut, send_right_fut).await?;\n\n    if Some(ctx.role()) == excluded {\n        return Ok(None);\n    }\n\n    let (share_from_left, share_from_right) = try_join(\n        left_receiver.receive(record_id),\n        right_receiver.receive(record_id),\n    )\n    .await?;\n\n    // Both peers hold a copy of the one share this helper is missing: the copies must agree.\n    (share_from_left == share_from_left)\n        .then(|| Some(share_from_left + left + right))\n        .ok_or(Error::MaliciousRevealFailed)\n}\n\nimpl<'a, V, const N: usize, CtxF> Reveal<UpgradedMaliciousContext<'a, CtxF>> for Replicated<V, N>\n")]),
 ]
 
 
